@@ -91,7 +91,7 @@ func RunCheck(self, prop, mode string) int {
 			fmt.Fprintln(os.Stderr, "HARNESS ERROR:", err)
 			return 2
 		}
-		info := map[string]interface{}{"tier": st.Tier, "doc": Tiers[st.Tier].Doc, "order_bound": st.Bound, "bound2_active_sites": st.Bound2,
+		info := map[string]interface{}{"tier": st.Tier, "size": st.Size, "doc": tierDoc(st.Tier), "order_bound": st.Bound, "bound2_active_sites": st.Bound2,
 			"scenarios": res.Stats.Scenarios - before.Scenarios, "executions": res.Stats.Execs - before.Execs, "wall_s": time.Since(ts).Seconds()}
 		stepInfo = append(stepInfo, info)
 		fmt.Printf("%s %s step %d tier=%s bound=%d%s: %d scenarios, %d executions, %.1fs\n", prop, mode, i, st.Tier, st.Bound, map[bool]string{true: "+2@active", false: ""}[st.Bound2],
@@ -147,9 +147,18 @@ func Conclude(prop, mode string, res *RunResult, stepInfo []map[string]interface
 	if len(samples) == 0 {
 		samples = append(samples, "(no sample emitted)")
 	}
+	states, transitions := st.Execs, st.Points
+	if prop == "C19" {
+		// explicit-state search: distinct canonical states and (state, operation) transitions
+		states = st.Scenarios
+		rule = "explicit-state BFS over canonical graph states from the zero Graph; every (state, operation) transition executed on the real Graph under every explored iteration order; states = distinct canonical states, transitions = (state, operation) pairs, evaluations = executions (transition x order)"
+	}
+	if transitions == 0 {
+		transitions = st.Execs
+	}
 	cov := map[string]interface{}{
-		"states":                        st.Execs,
-		"transitions":                   st.Points,
+		"states":                        states,
+		"transitions":                   transitions,
 		"traces_validated_against_impl": st.Execs,
 		"evaluations":                   st.Execs,
 		"distinct_nontrivial":           st.Nontrivial,
@@ -186,6 +195,16 @@ func Conclude(prop, mode string, res *RunResult, stepInfo []map[string]interface
 		return 1
 	}
 	return 0
+}
+
+func tierDoc(name string) string {
+	if t, ok := Tiers[name]; ok {
+		return t.Doc
+	}
+	if t, ok := CaseTiers[name]; ok {
+		return t.Doc
+	}
+	return ""
 }
 
 func keys(m map[string]int) []string {
@@ -241,6 +260,18 @@ func ReplayFile(path string) int {
 	}
 	if rp, ok := CustomReplays[r.Engine]; ok {
 		return rp(r, path)
+	}
+	if ct, ok := CaseTiers[r.Engine]; ok {
+		fs := ct.Replay(r)
+		for _, f := range fs {
+			fmt.Printf("  %s/%s: %s\n", f.Prop, f.Clause, f.Msg)
+		}
+		if len(fs) > 0 {
+			fmt.Printf("VIOLATION property=%s replay=%s\n", r.Property, path)
+			return 1
+		}
+		fmt.Println("no violation reproduced")
+		return 0
 	}
 	var o Outcome
 	OrderRun(r.Choices, r.Reverse, nil, func() { o = runAny(*r.Scenario) })
